@@ -149,6 +149,25 @@ def worker(ctx):
                     res.count("decoy_cwd_variants")
                     od = os.path.join(top, f"cli-{lang}-{int(opt)}-decoy")
                     compare("decoy-files-in-cwd", lang, opt, cli_variant("decoy", lang, opt, od, main, decoy, "4", False))
+                if vi == (case_id + 1) % len(modes):
+                    # an output directory that already holds files under the names about to be written: the output of an older schema
+                    # version (longer, shorter, with other non-ASCII text), an identical file, an empty file
+                    od = os.path.join(top, f"cli-{lang}-{int(opt)}-stale")
+                    os.makedirs(od)
+                    stale_kind = ["longer", "shorter", "identical-plus-tail", "empty", "longer-non-ascii"][case_id % 5]
+                    for name in sorted(ref_dig[(lang, opt)]):   # exactly the files this compilation writes (imported files are compiled separately)
+                        if True:
+                            refp = os.path.join(top, f"ref-{lang}-{int(opt)}", name)
+                            cur = open(refp, encoding="utf-8").read() if os.path.exists(refp) else ""
+                            text = {"longer": cur + "\n// older output, longer than today's\n" * 40,
+                                    "shorter": cur[: max(0, len(cur) // 3)],
+                                    "identical-plus-tail": cur + "x",
+                                    "empty": "",
+                                    "longer-non-ascii": "// \u00e9\u4e2d\u6587 \U0001f600 older output\n" * 30 + cur + "\u00e9" * 50}[stale_kind]
+                            with open(os.path.join(od, name), "w", encoding="utf-8") as fh:
+                                fh.write(text)
+                    res.count("stale_outdir_variants")
+                    compare("output-directory-holds-older-output:" + stale_kind, lang, opt, cli_variant("stale", lang, opt, od, main, top, "0", False))
                 if vi == 0:
                     # default output directory (next to the schema) from another cwd
                     rc, out, err = sut_compiler.cli([lang, os.path.relpath(main, "/")], cwd="/", hashseed="5")
@@ -245,13 +264,13 @@ if __name__ == "__main__":
         "C18", "props.C18", worker,
         rule=("case = generated valid schema; reference = first in-process compilation (c, go, py; c -O and go -O when traditional); variants: "
               "fresh CLI processes with PYTHONHASHSEED 0/1/2/random, relative path + other cwd, -q + other output directory, a cwd holding different "
-              "files under every relative import path of the schema (decoys), default output "
+              "files under every relative import path of the schema (decoys), an output directory that already holds older/other files under the same names, default output "
               "directory; in-process repeats in forward and reverse language order, one parse rendered for all languages in both orders, "
               "parse A/parse B/render B/render A interleaving with the previous schema; compilation right after an earlier compilation chosen to leave state "
               "behind (file ending in a comment with/without newline, comment after the last brace, name-changing options, every definition kind, "
               "and compilations that fail inside a message/enum/string/import or at an illegal character); sha256 of every generated file compared; the "
               "cache-coherence monitor recomputes every memoised AST method on every call; non-trivial/distinct as in C01"),
         assumptions=["the generated files are the only observable output that matters (stderr lint text is not compared)"],
-        required_counters=["variants_compared", "cli_compilations", "decoy_cwd_variants", "after_residue_variants", "residue_compilations_succeeded",
+        required_counters=["variants_compared", "cli_compilations", "decoy_cwd_variants", "stale_outdir_variants", "after_residue_variants", "residue_compilations_succeeded",
                            "residue_compilations_failed_as_intended"],
     )
